@@ -63,7 +63,7 @@ theorem delete_follows_identity (l : List Sheet) (sel del : Nat) (hne : sel ≠ 
 
 /-! ### every command keeps the selected sheet in range -/
 
-private theorem stacks_push {s : State} {d : Diff} (hu : ∀ x ∈ s.undo, diffOK x = true)
+theorem stacks_push {s : State} {d : Diff} (hu : ∀ x ∈ s.undo, diffOK x = true)
     (hd : diffOK d = true) :
     (∀ x ∈ (push s d).undo, diffOK x = true) ∧ (∀ x ∈ (push s d).redo, diffOK x = true) := by
   unfold push
@@ -74,7 +74,7 @@ private theorem stacks_push {s : State} {d : Diff} (hu : ∀ x ∈ s.undo, diffO
     · exact hu x h
   · intro x hx; cases hx
 
-private theorem push_selSheet (s1 : State) (i : Nat) (d : Diff)
+theorem push_selSheet (s1 : State) (i : Nat) (d : Diff)
     (hsel : s1.selected < s1.sheets.length) (hu : ∀ x ∈ s1.undo, diffOK x = true)
     (hd : diffOK d = true) :
     (push (selSheet s1 i) d).selected < (push (selSheet s1 i) d).sheets.length
@@ -203,7 +203,7 @@ theorem applyRedo_sheetInv (s : State) (d : Diff) (h : SheetInv s) : SheetInv (a
     exact ⟨by rw [length_modifyAt]; exact hsel, hu, hr⟩
 
 /-- the view setters change neither the sheet count, nor the selected sheet, nor the history -/
-private theorem setView_sheetInv {s : State} (v : View) (h : SheetInv s) : SheetInv (setView s v) := by
+theorem setView_sheetInv {s : State} (v : View) (h : SheetInv s) : SheetInv (setView s v) := by
   rw [sheetInv_iff] at h ⊢
   exact ⟨by rw [setView_sheets_length]; exact h.1, h.2.1, h.2.2⟩
 
@@ -367,7 +367,7 @@ theorem validCol_iff (c : Int) : validCol c = true ↔ 1 ≤ c ∧ c ≤ 16384 :
   unfold validCol LAST_COLUMN
   simp only [Bool.and_eq_true, decide_eq_true_eq]
 
-private theorem allOK_setView {s : State} {v : View} (h : AllOK s.sheets) (hv : viewOK v = true) :
+theorem allOK_setView {s : State} {v : View} (h : AllOK s.sheets) (hv : viewOK v = true) :
     AllOK (setView s v).sheets := by
   intro x hx
   unfold setView at hx
@@ -375,27 +375,27 @@ private theorem allOK_setView {s : State} {v : View} (h : AllOK s.sheets) (hv : 
   · exact h x h'
   · rw [e]; exact hv
 
-private theorem allOK_modify {l : List Sheet} {i : Nat} {f : Sheet → Sheet} (h : AllOK l)
+theorem allOK_modify {l : List Sheet} {i : Nat} {f : Sheet → Sheet} (h : AllOK l)
     (hf : ∀ y, (f y).view = y.view) : AllOK (modifyAt l i f) := by
   intro x hx
   rcases mem_modifyAt hx with h' | ⟨y, hy, e⟩
   · exact h x h'
   · rw [e, hf]; exact h y hy
 
-private theorem allOK_remove {l : List Sheet} {i : Nat} (h : AllOK l) : AllOK (removeAt l i) :=
+theorem allOK_remove {l : List Sheet} {i : Nat} (h : AllOK l) : AllOK (removeAt l i) :=
   fun x hx => h x (mem_removeAt hx)
 
-private theorem allOK_insert {l : List Sheet} {i : Nat} {sh : Sheet} (h : AllOK l)
+theorem allOK_insert {l : List Sheet} {i : Nat} {sh : Sheet} (h : AllOK l)
     (hs : viewOK sh.view = true) : AllOK (insertAt l i sh) := by
   intro x hx
   rcases mem_insertAt hx with e | h'
   · rw [e]; exact hs
   · exact h x h'
 
-private theorem allOK_move {l : List Sheet} {f t : Nat} (h : AllOK l) : AllOK (moveList l f t) :=
+theorem allOK_move {l : List Sheet} {f t : Nat} (h : AllOK l) : AllOK (moveList l f t) :=
   fun x hx => h x (mem_moveList hx)
 
-private theorem viewOK_default : viewOK View.default = true := by decide
+theorem viewOK_default : viewOK View.default = true := by decide
 
 theorem selCell_views (s : State) (r c : Int) (h : AllOK s.sheets) : AllOK (selCell s r c).sheets := by
   unfold selCell
@@ -446,14 +446,14 @@ theorem selRange_views (s : State) (r1 c1 r2 c2 : Int) (h : AllOK s.sheets) :
       · rw [if_neg hok]; exact h
   · rw [if_neg hv]; exact h
 
-private theorem arrow_col {v : View} {c : Int} (hold : viewOK v = true) (hv : validCol c = true) :
+theorem arrow_col {v : View} {c : Int} (hold : viewOK v = true) (hv : validCol c = true) :
     viewOK { v with col := c, r1 := v.row, c1 := c, r2 := v.row, c2 := c } = true := by
   rw [viewOK_iff] at hold ⊢
   rw [validCol_iff] at hv
   simp only
   omega
 
-private theorem arrow_row {v : View} {r : Int} (hold : viewOK v = true) (hv : validRow r = true) :
+theorem arrow_row {v : View} {r : Int} (hold : viewOK v = true) (hv : validRow r = true) :
     viewOK { v with row := r, r1 := r, c1 := v.col, r2 := r, c2 := v.col } = true := by
   rw [viewOK_iff] at hold ⊢
   rw [validRow_iff] at hv
